@@ -14,9 +14,12 @@ from vlib.ctx import HarnessError
 _MP = multiprocessing.get_context("fork")
 
 # created in the process that will create the pool, BEFORE the pool forks its
-# workers, so that the workers inherit it
-_TURN = None
-_PLAN = None     # dict: 'rank': {(round, idx): global rank}, 'fault': {(round, idx): exception}
+# workers, so that the workers inherit them
+_TURN = None     # number of results that have arrived in the parent (global, all rounds)
+_ALLOW = None    # per round: how many tasks of the round's completion order may finish
+_PLAN = None     # 'rank': {(round, idx): global rank}, 'pos': {(round, idx): position in its round's order},
+                 # 'fault': {(round, idx): exception}
+MAXROUNDS = 64
 
 
 def _trampoline(tag, func, args, kwds):
@@ -28,64 +31,111 @@ def _trampoline(tag, func, args, kwds):
     res = func(*args, **kwds)
     rank = plan["rank"].get(tag)
     if rank is not None:
+        pos = plan["pos"][tag]
+        r = tag[0]
         deadline = time.time() + 50
-        while _TURN.value < rank:
+        # finish only in the scripted order, and only once the parent has let this position through
+        while _TURN.value < rank or (r < MAXROUNDS and _ALLOW[r] <= pos):
             if time.time() > deadline:
-                raise HarnessError(f"turn {rank} for task {tag} never came (counter {_TURN.value})")
+                raise HarnessError(f"turn {rank} for task {tag} never came (arrived {_TURN.value}, "
+                                   f"allowed {_ALLOW[r] if r < MAXROUNDS else '-'})")
             time.sleep(0.0005)
     return (os.getpid(), res)
 
 
 class _Tagged:
-    def __init__(self, inner):
+    def __init__(self, inner, pool, tag):
         self.inner = inner
+        self.pool = pool
+        self.tag = tag
 
     def get(self, timeout=None):
+        self.pool._demand(self.tag)
         pid_res = self.inner.get(timeout)
         return pid_res[1]
 
     def wait(self, timeout=None):
+        self.pool._demand(self.tag)
         return self.inner.wait(timeout)
 
     def ready(self):
-        return self.inner.ready()
+        return self.pool._poll(self.tag, self.inner)
 
     def successful(self):
         return self.inner.successful()
 
 
 class TaggingPool:
-    """Proxy around the real pool: tags each task (round, index), forces the
-    scripted arrival order, injects faults; everything else is delegated."""
+    """Proxy around the real pool: tags each task (round, index), forces the scripted schedule
+    (arrival order, and how many tasks have finished when the parent first looks), injects faults;
+    everything else is delegated."""
 
-    def __init__(self, real, K, orders=None, faults=None):
+    def __init__(self, real, K):
         self.real = real
         self.K = K
         self.n = 0
         self.arrivals = []
         self.pids = {}
 
+    # -- schedule control (parent side)
+    def _arrived_in(self, r):
+        return sum(1 for t in list(self.arrivals) if t[0] == r)
+
+    def _settle(self, r):
+        """wait until every task of round r that is allowed to finish has arrived"""
+        if r >= MAXROUNDS or (r, 0) not in _PLAN["pos"]:
+            return
+        submitted = min(self.K, self.n - r * self.K)
+        deadline = time.time() + 50
+        while self._arrived_in(r) < min(_ALLOW[r], submitted):
+            if time.time() > deadline:
+                raise HarnessError(f"round {r}: {self._arrived_in(r)} arrivals, {_ALLOW[r]} allowed")
+            time.sleep(0.0005)
+
+    def _demand(self, tag):
+        r = tag[0]
+        if r >= MAXROUNDS or tag not in _PLAN["pos"]:
+            return
+        self._settle(r)
+        if tag not in self.arrivals:
+            pos = _PLAN["pos"][tag]
+            if _ALLOW[r] < pos + 1:
+                _ALLOW[r] = pos + 1          # the parent blocks on it: everything up to it may finish
+            self._settle(r)
+
+    def _poll(self, tag, inner):
+        r = tag[0]
+        if r >= MAXROUNDS or tag not in _PLAN["pos"]:
+            return inner.ready()
+        self._settle(r)
+        if tag in self.arrivals:
+            # the callback has run; the AsyncResult is set just before it
+            return True
+        if _ALLOW[r] < self.K:
+            _ALLOW[r] = _ALLOW[r] + 1        # time passes while the parent polls
+        return False
+
     def apply_async(self, func, args=(), kwds=None, callback=None, error_callback=None):
         tag = (self.n // self.K, self.n % self.K)
         self.n += 1
 
         def arrived_ok(v, _tag=tag):
-            self.arrivals.append(_tag)
             self.pids[_tag] = v[0]
-            with _TURN.get_lock():
-                _TURN.value += 1
             if callback:
                 callback(v[1])
-
-        def arrived_err(e, _tag=tag):
             self.arrivals.append(_tag)
             with _TURN.get_lock():
                 _TURN.value += 1
+
+        def arrived_err(e, _tag=tag):
             if error_callback:
                 error_callback(e)
+            self.arrivals.append(_tag)
+            with _TURN.get_lock():
+                _TURN.value += 1
         inner = self.real.apply_async(_trampoline, (tag, func, tuple(args), dict(kwds or {})),
                                       callback=arrived_ok, error_callback=arrived_err)
-        return _Tagged(inner)
+        return _Tagged(inner, self, tag)
 
     def __getattr__(self, name):
         return getattr(self.real, name)
@@ -93,16 +143,26 @@ class TaggingPool:
 
 def make_factory(K, orders=None, faults=None, log=None):
     """pool factory for seams.Tracer.pool_factory: (orig_init_task_pool, num_processes) -> pool
-    orders: dict round -> permutation of range(K) (completion order); faults: dict (round, idx) -> exception"""
+    orders: dict round -> permutation of range(K)  or  (permutation, eager): completion order and how
+    many of its tasks have finished when the parent first inspects a result of that round (default: all);
+    faults: dict (round, idx) -> exception"""
     def factory(orig, num_processes):
-        global _TURN, _PLAN
+        global _TURN, _PLAN, _ALLOW
         _TURN = _MP.Value("i", 0)
-        rank = {}
-        for r, perm in (orders or {}).items():
+        _ALLOW = _MP.Array("i", [K] * MAXROUNDS, lock=False)
+        rank, posd = {}, {}
+        for r, script in (orders or {}).items():
+            if len(script) == 2 and isinstance(script[0], (list, tuple)):
+                perm, eager = list(script[0]), int(script[1])
+            else:
+                perm, eager = list(script), K
+            if r < MAXROUNDS:
+                _ALLOW[r] = eager
             for pos, idx in enumerate(perm):
                 rank[(r, idx)] = r * K + pos
+                posd[(r, idx)] = pos
         # rounds without a script: no waiting
-        _PLAN = {"rank": rank, "fault": dict(faults or {})}
+        _PLAN = {"rank": rank, "pos": posd, "fault": dict(faults or {})}
         real = orig(num_processes)
         tp = TaggingPool(real, K)
         if log is not None:
